@@ -80,6 +80,8 @@ def parse_template(path):
     cur_text, region = [], None
     for ln, line in enumerate(open(path).read().split('\n'), 1):
         s = line.strip()
+        if s.startswith('//@@'):
+            continue          # per-unit driver settings, read by check.py
         if s.startswith('//@'):
             d = s[3:].strip()
             where = '%s:%d' % (path, ln)
